@@ -218,6 +218,13 @@ func (g *gm) expr(e ast.Expr) string {
 		return "(.slice " + g.expr(x.X) + " " + g.optExpr(x.Low) + " " + g.optExpr(x.High) + ")"
 	case *ast.StarExpr:
 		return g.expr(x.X) // no aliasing: *p is p
+	case *ast.TypeAssertExpr:
+		// single-value `x.(*T)` to a POINTER type: the value itself (the embedding has no dynamic types: a failing
+		// assertion, which panics in Go, is not modelled - listed with the semantic choices in DESIGN 9.5)
+		if _, ok := x.Type.(*ast.StarExpr); ok && x.Type != nil {
+			return g.expr(x.X)
+		}
+		return "(.call " + g.bad("?expression", x) + " [])"
 	case *ast.UnaryExpr:
 		switch x.Op {
 		case token.NOT:
@@ -974,6 +981,10 @@ func genGoMiniAll() []*leanFile {
 	out = append(out, &leanFile{name: "GoRecover", raw: genGoMini("GoRecover",
 		[]string{cl + "segment.go"},
 		map[string][]string{cl + "segment.go": {"segment.indexMatchesLog", "segment.trimLog"}},
+		clConsts)})
+	out = append(out, &leanFile{name: "GoCompact", raw: genGoMini("GoCompact",
+		[]string{cl + "compact_cleaner.go"},
+		map[string][]string{cl + "compact_cleaner.go": {"compactCleaner.cleanSegment"}},
 		clConsts)})
 	en := "server/encryption/"
 	out = append(out, &leanFile{name: "GoSeal", raw: genGoMini("GoSeal",
